@@ -284,13 +284,15 @@ Code(S, v) ==       \* an integer code of a lattice state (not injective; only u
 Thin(set, m) == IF m <= 1 THEN set ELSE {v \in set : Code(Sp, v) % m = 0}
 
 (* how much of the lattice each kind of case uses: <<pairs-from, triples, interp-from>> moduli *)
-Mods == CASE SpaceId \in {"se3"} -> IF Size = 1 THEN <<4, 12, 16>> ELSE <<1, 5, 4>>
-          [] SpaceId \in {"nest"} -> IF Size = 1 THEN <<4, 16, 16>> ELSE <<1, 7, 4>>
-          [] SpaceId \in {"rot3"} -> IF Size = 1 THEN <<8, 24, 24>> ELSE <<1, 12, 6>>
-          [] SpaceId \in {"se2", "wrap-se2"} -> IF Size = 1 THEN <<1, 2, 1>> ELSE <<1, 4, 2>>
+Mods == CASE SpaceId \in {"se3"} -> IF Size = 1 THEN <<4, 12, 32>> ELSE <<1, 5, 16>>
+          [] SpaceId \in {"nest"} -> IF Size = 1 THEN <<4, 16, 32>> ELSE <<1, 7, 24>>
+          [] SpaceId \in {"rot3"} -> IF Size = 1 THEN <<8, 24, 96>> ELSE <<1, 12, 48>>
+          [] SpaceId \in {"se2"} -> IF Size = 1 THEN <<1, 2, 2>> ELSE <<1, 4, 8>>
+          [] SpaceId \in {"wrap-se2"} -> IF Size = 1 THEN <<2, 4, 4>> ELSE <<1, 1, 1>>
           [] SpaceId \in {"torus"} -> IF Size = 1 THEN <<1, 1, 1>> ELSE <<1, 2, 2>>
           [] SpaceId \in {"hybrid"} -> IF Size = 1 THEN <<1, 3, 1>> ELSE <<1, 1, 1>>
           [] SpaceId \in {"wrap-so3"} -> IF Size = 1 THEN <<2, 3, 3>> ELSE <<1, 1, 1>>
+          [] SpaceId \in {"wrap-nest"} -> IF Size = 1 THEN <<1, 2, 2>> ELSE <<1, 1, 1>>
           [] OTHER -> <<1, 1, 1>>
 
 PairFrom == Thin(All, Mods[1])
